@@ -4,11 +4,11 @@ From DivanV Require Import Model.Round Proofs.RoundBase Proofs.RoundInv Proofs.R
 Import ListNotations.
 
 Lemma invariant_reachable : forall c st,
-  1 <= nthreads c -> guard c = true -> reachable c st -> inv_b c st = true.
+  1 <= nthreads c -> fixed_code c -> reachable c st -> inv_b c st = true.
 Proof. intros c st T G R. apply inv_b_iff. apply inv_reachable; assumption. Qed.
 
 Lemma no_overlap_reachable : forall c st,
-  2 <= nthreads c -> guard c = true -> reachable c st -> gp st = GRun ->
+  2 <= nthreads c -> fixed_code c -> reachable c st -> gp st = GRun ->
   let n := ssize c (round st) in
   forall ti tj, In ti (ths st) -> In tj (ths st) ->
     panicked ti = false -> n + 3 < pc ti <= 2 * n + 4 ->
@@ -16,11 +16,11 @@ Lemma no_overlap_reachable : forall c st,
 Proof. intros c st T G R. apply no_overlap. apply inv_reachable; auto. lia. Qed.
 
 Lemma deadlock_free_reachable : forall c st,
-  1 <= nthreads c -> guard c = true -> reachable c st -> final st = false ->
+  1 <= nthreads c -> fixed_code c -> reachable c st -> final st = false ->
   exists l st', step c st l = Some st'.
 Proof. intros c st T G R. apply deadlock_free. apply inv_reachable; assumption. Qed.
 
 Lemma measure_decreases_reachable : forall c st l st',
-  1 <= nthreads c -> guard c = true -> reachable c st ->
+  1 <= nthreads c -> fixed_code c -> reachable c st ->
   step c st l = Some st' -> measure c st' < measure c st.
-Proof. intros c st l st' T G R. apply measure_step. apply inv_reachable; assumption. Qed.
+Proof. intros c st l st' T G R. apply measure_step; auto. apply inv_reachable; assumption. Qed.
